@@ -72,6 +72,16 @@ structure GenCfg where
   /-- `true` (original library): without a buffer AssignToStr renders a scalar *behind* the old content
       of the destination string (`Assign(&"abc", 5)` yields "abc5"). -/
   strAppendsOld : Bool := true
+  /-- `true` (original emitter): in set mode the leaf assignment of a scalar slice element, and of a field
+      of a struct held by value in a map, is followed by `return nil` before the write-back
+      (`s[i] = x`, `m[k] = x`): the update is made to a local copy and lost. -/
+  setLostUpdate : Bool := true
+  /-- `true` (original emitter): set mode stores into a nil map when the map is the root value or a
+      map held as a map value (no auto-creation there): `assignment to entry in nil map`. -/
+  setNilMapStorePanics : Bool := true
+  /-- `true` (original emitter): set mode hands a nil pointer-to-scalar (or nil `*[]byte`) field to
+      AssignBuf as the destination, which writes through it. -/
+  setNilLeafPtrPanics : Bool := true
 deriving Repr, Inhabited
 
 /-- The configuration that mirrors the tree as it is (flags flip when a `fix:` commit lands). -/
@@ -96,6 +106,9 @@ def GenCfg.fixed : GenCfg where
   resetNilPtrPanics := false
   copyEmptyPtrCollDropped := false
   strAppendsOld := false
+  setLostUpdate := false
+  setNilMapStorePanics := false
+  setNilLeafPtrPanics := false
 
 /-- After the nested block of a non-basic node: the "special case to take value by pointer"
 (compiler.go:964-975). Not emitted for the root (`v != "x"`). -/
